@@ -172,6 +172,8 @@ def _check_interp(idata: dict, z: str):
     vsh = np.array(idata["vi"]).shape
     ish = np.array(idata["io"]).shape
     zsh = np.array(idata[z]).shape
+    if len(vsh) != 1 or len(ish) != 1 or len(zsh) != 2:
+        raise ValueError("dimensions of interpolation data do not match")
     if vsh[0] != zsh[0] or ish[0] != zsh[1]:
         raise ValueError("dimensions of interpolation data do not match")
 
